@@ -1,0 +1,140 @@
+//go:build verif
+
+package mux
+
+// Contracts for govc, property C15 (write-through cache coherence of the mux worker group).
+// Comments only; compiled only with the build tag `verif`.
+
+//@ arith int
+//@ property C15
+//@ assumption mux: the backing store is modelled as a ghost map (storeMap); a store callback that returns an error has not changed the store (atomic failure), a successful add/update/upsert leaves exactly its returned value stored under the operation's key, a successful delete removes exactly that key, a successful load returns the stored value
+//@ assumption mux: a cache facade behaves like a map that may drop entries on Set (LRU eviction) but never invents or alters one; one worker's cache is only written by that worker's handlers
+//
+//@ ghost storeMap map[interface{}]interface{}
+//@ ghost cacheMap map[interface{}]interface{}
+//@ ghost curKey interface{}
+//@ ghost lastR interface{}
+//@ ghost lastErr error
+//@ ghost replies int
+//
+// coherence: whatever the cache holds for a key is what the store holds for it
+//@ pure coh() bool = storeMap != cacheMap && forall k interface{} :: { has(cacheMap, k) } has(cacheMap, k) ==> has(storeMap, k) && cacheMap[k] == storeMap[k]
+//@ pure storeSame() bool = forall k interface{} :: { has(storeMap, k) } has(storeMap, k) == old(has(storeMap, k)) && storeMap[k] == old(storeMap[k])
+//@ pure storeSameBut(x interface{}) bool = forall k interface{} :: { has(storeMap, k) } k != x ==> has(storeMap, k) == old(has(storeMap, k)) && storeMap[k] == old(storeMap[k])
+//@ pure cacheSame() bool = forall k interface{} :: { has(cacheMap, k) } has(cacheMap, k) == old(has(cacheMap, k)) && cacheMap[k] == old(cacheMap[k])
+//
+// ---- the cache facade (interface) ----
+//@ func CacheFacade.Peek
+//@   trusted interface contract: a map lookup
+//@   ensures (result1 <==> has(cacheMap, key)) && (result1 ==> result0 == cacheMap[key])
+//@   modifies
+//@ func CacheFacade.Get
+//@   trusted interface contract: a map lookup (recency bookkeeping is not visible)
+//@   ensures (result1 <==> has(cacheMap, key)) && (result1 ==> result0 == cacheMap[key])
+//@   modifies
+//@ func CacheFacade.Set
+//@   trusted interface contract: stores the entry; other entries may be evicted, never changed
+//@   ensures has(cacheMap, key) && cacheMap[key] == value && forall k interface{} :: { has(cacheMap, k) } k != key && has(cacheMap, k) ==> old(has(cacheMap, k)) && cacheMap[k] == old(cacheMap[k])
+//@   modifies entries(cacheMap)
+//@ func CacheFacade.Delete
+//@   trusted interface contract: removes the entry
+//@   ensures !has(cacheMap, key) && forall k interface{} :: { has(cacheMap, k) } k != key ==> has(cacheMap, k) == old(has(cacheMap, k)) && cacheMap[k] == old(cacheMap[k])
+//@   modifies entries(cacheMap)
+//
+// ---- the store callbacks ----
+//@ func funcval op.loadFn
+//@   trusted store callback
+//@   ensures #loaded err == nil ==> has(storeMap, d) && v == storeMap[d]
+//@   modifies
+//@ func funcval op.addFn
+//@   trusted store callback (the key of the operation is the ghost curKey)
+//@   ensures #written err == nil ==> has(storeMap, curKey) && storeMap[curKey] == v && storeSameBut(curKey)
+//@   ensures #failed err != nil ==> storeSame()
+//@   modifies entries(storeMap)
+//@ func funcval op.updFn
+//@   trusted store callback
+//@   ensures #written err == nil ==> has(storeMap, curKey) && storeMap[curKey] == v && storeSameBut(curKey)
+//@   ensures #failed err != nil ==> storeSame()
+//@   modifies entries(storeMap)
+//@ func funcval op.upsertFn
+//@   trusted store callback
+//@   ensures #written err == nil ==> has(storeMap, curKey) && storeMap[curKey] == v && storeSameBut(curKey)
+//@   ensures #failed err != nil ==> storeSame()
+//@   modifies entries(storeMap)
+//@ func funcval op.deleteFn
+//@   trusted store callback
+//@   ensures #deleted result == nil ==> !has(storeMap, d) && storeSameBut(d)
+//@   ensures #failed result != nil ==> storeSame()
+//@   modifies entries(storeMap)
+//@ func funcval op.isNotFoundFn
+//@   trusted pure classification of an error
+//@   modifies
+//
+// the reply to the caller: exactly one per handled request (channel send on the request's own 1-buffered channel)
+//@ func AsyncC.SetR
+//@   trusted channel send; the contract records what was replied
+//@   ensures lastR == r && lastErr == err && replies == old(replies) + 1
+//@   modifies lastR, lastErr, replies
+//
+// ---- handlers: each preserves coherence, replies exactly once, and touches the cache only after the store succeeded ----
+//@ func Worker.handleLoad
+//@   requires w != nil && c != nil && op != nil && coh() && curKey == op.k
+//@   ensures #coherent coh() && storeSame()
+//@   ensures #once replies == old(replies) + 1
+//@   ensures #value lastErr == nil ==> has(storeMap, op.k) && lastR == storeMap[op.k]
+//@   modifies entries(cacheMap), lastR, lastErr, replies
+//@ func Worker.handleAdd
+//@   requires w != nil && c != nil && op != nil && coh() && curKey == op.k && ErrDupKey != nil
+//@   ensures #coherent coh()
+//@   ensures #once replies == old(replies) + 1
+//@   ensures #dup old(has(cacheMap, op.k)) ==> lastErr == ErrDupKey && storeSame() && cacheSame()
+//@   ensures #value lastErr == nil ==> has(storeMap, op.k) && lastR == storeMap[op.k] && has(cacheMap, op.k)
+//@   ensures #failed lastErr != nil ==> storeSame() && cacheSame()
+//@   modifies entries(cacheMap), entries(storeMap), lastR, lastErr, replies
+//@ func Worker.handleUpdate
+//@   requires w != nil && c != nil && op != nil && coh() && curKey == op.k
+//@   ensures #coherent coh()
+//@   ensures #once replies == old(replies) + 1
+//@   ensures #value lastErr == nil ==> has(storeMap, op.k) && lastR == storeMap[op.k] && has(cacheMap, op.k)
+//@   ensures #failed lastErr != nil ==> storeSame() && cacheSame()
+//@   modifies entries(cacheMap), entries(storeMap), lastR, lastErr, replies
+//@ func Worker.handleDelete
+//@   requires w != nil && c != nil && op != nil && coh() && curKey == op.k
+//@   ensures #coherent coh()
+//@   ensures #once replies == old(replies) + 1
+//@   ensures #deleted lastErr == nil ==> !has(cacheMap, op.k) && !has(storeMap, op.k)
+//@   ensures #failed lastErr != nil ==> storeSame() && cacheSame()
+//@   modifies entries(cacheMap), entries(storeMap), lastR, lastErr, replies
+//@ func Worker.handleMixUpdOrAddIfNull
+//@   requires w != nil && c != nil && op != nil && coh() && curKey == op.k
+//@   ensures #coherent coh()
+//@   ensures #once replies == old(replies) + 1
+//@   ensures #value lastErr == nil ==> has(storeMap, op.k) && lastR == storeMap[op.k] && has(cacheMap, op.k)
+//@   ensures #failed lastErr != nil ==> storeSame() && cacheSame()
+//@   modifies entries(cacheMap), entries(storeMap), lastR, lastErr, replies
+//@ func Worker.handleMixUpsertThenLoad
+//@   requires w != nil && c != nil && op != nil && coh() && curKey == op.k
+//@   ensures #coherent coh()
+//@   ensures #once replies == old(replies) + 1
+//@   ensures #value lastErr == nil ==> has(storeMap, op.k) && lastR == storeMap[op.k] && has(cacheMap, op.k)
+//@   ensures #failed lastErr != nil ==> cacheSame()
+//@   modifies entries(cacheMap), entries(storeMap), lastR, lastErr, replies
+//@ func Worker.handleMixUpsertThenRenewInCache
+//@   requires w != nil && c != nil && op != nil && coh() && curKey == op.k
+//@   ensures #coherent coh()
+//@   ensures #once replies == old(replies) + 1
+//@   ensures #value lastErr == nil ==> has(storeMap, op.k) && lastR == storeMap[op.k]
+//@   ensures #failed lastErr != nil ==> storeSame() && cacheSame()
+//@   modifies entries(cacheMap), entries(storeMap), lastR, lastErr, replies
+//
+// ---- routing: a key always goes to the same worker, for every hash value ----
+//@ ghost khash int
+//@ func Hashed2Int.HashedInt
+//@   trusted interface contract: the hash is a function of the key (recorded in the ghost khash for the key at hand)
+//@   ensures result == khash
+//@   modifies
+//@ func WorkerGrp.locHash
+//@   requires w != nil && w.muxSize > 0
+//@   ensures #range 0 <= result && result < w.muxSize
+//@   ensures #function result == ite(khash % w.muxSize < 0, -(khash % w.muxSize), khash % w.muxSize)
+//@   modifies
